@@ -441,3 +441,208 @@ Proof.
   rewrite float_text_roundtrip by assumption. fold p.
   rewrite Hl, read_float_long. reflexivity.
 Qed.
+
+(* ================================================================== sequences with Floats *)
+
+Record config_ok_float (cf : config) : Prop := {
+  okf_base : config_ok cf;
+  okf_long : cf_float_look_long cf = true }.
+
+(* what reading back must give: Ints and Strings equal; a finite Float b = (-1)^s mx 2^ex comes back
+   as the double encode_double s m e with |m 2^e - mx 2^ex| <= 10^-p (p = printed precision) *)
+Definition float_close (p : nat) (b b' : N) : Prop :=
+  exists s mx ex m e,
+    decode_double b = Some (s, mx, ex) /\ b' = encode_double 1024 s m e /\ (-1074 <= e)%Z /\
+    (Z.abs (sval (-1074) (pow10 p) m e - sval (-1074) (pow10 p) mx ex) <= 2 ^ 1074)%Z.
+
+Definition finite (b : N) : Prop := decode_double b <> None.
+
+(* item-wise well-formedness of a written sequence and of the directives it is read with *)
+Inductive item_ok (cf : config) : pitem -> sitem -> text -> value -> value -> Prop :=
+| io_show_exact : forall v after, showable v -> ends_token v after ->
+    item_ok cf (PShow v) (SLook (ty_of v)) after v v
+| io_show_float : forall b b' after, finite b -> stops_float after -> float_close 6 b b' ->
+    look_value cf TFloat (show_value cf (VFloat b) ++ after) = Some (VFloat b', length (show_value cf (VFloat b))) ->
+    item_ok cf (PShow (VFloat b)) (SLook TFloat) after (VFloat b) (VFloat b')
+| io_num_li : forall z after, int64 z -> stops_int after ->
+    item_ok cf (PNum spec_li (VInt z)) (SNum spec_li) after (VInt z) (VInt z)
+| io_num_float : forall sp ssp b b' after, finite b -> stops_float after ->
+    float_close (float_prec sp) b b' ->
+    scan_num cf ssp (print_num sp (VFloat b) ++ after) = Some (VFloat b', length (print_num sp (VFloat b))) ->
+    item_ok cf (PNum sp (VFloat b)) (SNum ssp) after (VFloat b) (VFloat b').
+
+Lemma item_ok_reads : forall cf it si after v v', config_ok cf -> item_ok cf it si after v v' ->
+  (forall t, si <> SLit t) /\
+  conv_reads cf si (print_item cf it ++ after) = Some (v', length (print_item cf it)).
+Proof.
+  intros cf it si after v v' Hcf H. destruct H.
+  - split; [intros t; discriminate|]. cbn [conv_reads print_item]. now apply show_value_reads.
+  - split; [intros t; discriminate|]. cbn [conv_reads print_item]. assumption.
+  - split; [intros t; discriminate|]. cbn [conv_reads print_item]. now apply int_li_roundtrip.
+  - split; [intros t; discriminate|]. cbn [conv_reads print_item]. assumption.
+Qed.
+
+(* existence of the Float reading facts required by io_show_float / io_num_float *)
+Lemma show_float_item : forall cf b after, config_ok_float cf -> finite b -> stops_float after ->
+  exists b', item_ok cf (PShow (VFloat b)) (SLook TFloat) after (VFloat b) (VFloat b').
+Proof.
+  intros cf b after [Hb Hl] Hf Hr. unfold finite in Hf.
+  destruct (decode_double b) as [[[s mx] ex]|] eqn:Hd; [|congruence].
+  destruct (float_roundtrip_partial cf (spec_f false) (spec_f true) b s mx ex after) as (m & e & Hs & He & Hv);
+    try reflexivity; try assumption.
+  { repeat split. }
+  exists (encode_double 1024 s m e). constructor; try assumption.
+  - unfold finite. congruence.
+  - exists s, mx, ex, m, e. repeat split; assumption.
+  - cbn [look_value show_value]. rewrite Hl. exact Hs.
+Qed.
+
+Lemma num_float_item : forall cf sp ssp b after,
+  conv_is_float (n_conv sp) = true -> plain_fspec sp ->
+  conv_is_float (n_conv ssp) = true -> conv_is_int (n_conv ssp) = false -> n_long ssp = true ->
+  finite b -> stops_float after ->
+  exists b', item_ok cf (PNum sp (VFloat b)) (SNum ssp) after (VFloat b) (VFloat b').
+Proof.
+  intros cf sp ssp b after H1 H2 H3 H4 H5 Hf Hr. unfold finite in Hf.
+  destruct (decode_double b) as [[[s mx] ex]|] eqn:Hd; [|congruence].
+  destruct (float_roundtrip_partial cf sp ssp b s mx ex after H1 H2 H3 H4 H5 Hd Hr) as (m & e & Hs & He & Hv).
+  exists (encode_double 1024 s m e). constructor; try assumption.
+  - unfold finite. congruence.
+  - exists s, mx, ex, m, e. repeat split; assumption.
+Qed.
+
+(* a sequence: literals pair with themselves, values with a directive that reads them *)
+Inductive seq_ok (cf : config) : list pitem -> text -> list sitem -> list value -> list value -> Prop :=
+| so_nil : forall rest, seq_ok cf [] rest [] [] []
+| so_lit : forall t its rest sits vs vs',
+    seq_ok cf its rest sits vs vs' -> seq_ok cf (PLit t :: its) rest (SLit t :: sits) vs vs'
+| so_val : forall it si its rest sits v v' vs vs',
+    item_ok cf it si (print_items cf its ++ rest) v v' ->
+    seq_ok cf its rest sits vs vs' ->
+    seq_ok cf (it :: its) rest (si :: sits) (v :: vs) (v' :: vs').
+
+Lemma seq_ok_reads : forall cf its rest sits vs vs', config_ok cf -> seq_ok cf its rest sits vs vs' ->
+  seq_reads cf its rest sits vs'.
+Proof.
+  intros cf its rest sits vs vs' Hcf H. induction H.
+  - constructor.
+  - constructor. assumption.
+  - destruct (item_ok_reads _ _ _ _ _ _ Hcf H) as [Hn Hr]. constructor; assumption.
+Qed.
+
+(* C15 with Floats, String sink and source, at any start position *)
+Theorem seq_roundtrip_string : forall cf its pre rest sits vs vs', config_ok cf ->
+  seq_ok cf its rest sits vs vs' ->
+  scan_str cf (fst (print_to_string cf pre (length pre) its) ++ rest) (length pre) sits []
+  = SOk vs' (snd (print_to_string cf pre (length pre) its)).
+Proof.
+  intros cf its pre rest sits vs vs' Hcf H. unfold print_to_string. cbn [fst snd].
+  rewrite firstn_all, <- app_assoc.
+  now rewrite (scan_str_seq cf its rest _ _ (seq_ok_reads _ _ _ _ _ _ Hcf H)).
+Qed.
+
+Theorem seq_roundtrip_file : forall cf its old rest sits vs vs', config_ok cf ->
+  seq_ok cf its rest sits vs vs' -> lits_plain its ->
+  scan_file cf (skipn (length old) (fst (print_to_file cf old (length old) its) ++ rest)) (length old) sits []
+  = SOk vs' (snd (print_to_file cf old (length old) its)).
+Proof.
+  intros cf its old rest sits vs vs' Hcf H Hl. unfold print_to_file. cbn [fst snd].
+  rewrite <- app_assoc, skipn_length_app.
+  now rewrite (scan_file_seq cf its rest _ _ (seq_ok_reads _ _ _ _ _ _ Hcf H) Hl).
+Qed.
+
+(* what seq_ok says about the values: position-wise equal, Floats within the printed precision *)
+Definition value_close (v v' : value) : Prop :=
+  match v, v' with
+  | VInt z, VInt z' => z = z'
+  | VStr s, VStr s' => s = s'
+  | VFloat b, VFloat b' => exists p, float_close p b b'
+  | _, _ => False
+  end.
+
+Lemma seq_ok_values : forall cf its rest sits vs vs', seq_ok cf its rest sits vs vs' ->
+  Forall2 value_close vs vs'.
+Proof.
+  intros cf its rest sits vs vs' H. induction H; try constructor; try assumption.
+  destruct H; cbn [value_close].
+  - destruct v; cbn; try reflexivity. destruct H.
+  - now exists 6%nat.
+  - reflexivity.
+  - now exists (float_prec sp).
+Qed.
+
+(* a checkable description of the sequences covered: every item with the directive that reads it *)
+Fixpoint wf_seq (cf : config) (its : list pitem) (sits : list sitem) (rest : text) : Prop :=
+  match its, sits with
+  | [], [] => True
+  | PLit t :: r, SLit t' :: sr => t = t' /\ wf_seq cf r sr rest
+  | PShow v :: r, SLook ty :: sr =>
+      ty = ty_of v /\
+      (match v with
+       | VFloat b => finite b /\ stops_float (print_items cf r ++ rest)
+       | _ => showable v /\ ends_token v (print_items cf r ++ rest)
+       end) /\ wf_seq cf r sr rest
+  | PNum sp (VInt z) :: r, SNum ssp :: sr =>
+      sp = spec_li /\ ssp = spec_li /\ int64 z /\ stops_int (print_items cf r ++ rest) /\ wf_seq cf r sr rest
+  | PNum sp (VFloat b) :: r, SNum ssp :: sr =>
+      conv_is_float (n_conv sp) = true /\ plain_fspec sp /\
+      conv_is_float (n_conv ssp) = true /\ conv_is_int (n_conv ssp) = false /\ n_long ssp = true /\
+      finite b /\ stops_float (print_items cf r ++ rest) /\ wf_seq cf r sr rest
+  | _, _ => False
+  end.
+
+Lemma wf_seq_ok : forall cf its sits rest, config_ok_float cf -> wf_seq cf its sits rest ->
+  exists vs', seq_ok cf its rest sits (values_of its) vs'.
+Proof.
+  intros cf its. induction its as [|it its IH]; intros sits rest Hcf H.
+  - destruct sits; [|destruct H]. exists []. constructor.
+  - destruct it as [t | v | sp [z | b | s]]; destruct sits as [|[t' | ty | ssp] sits]; cbn [wf_seq] in H;
+      try (destruct H; fail).
+    + destruct H as [<- H]. destruct (IH _ _ Hcf H) as [vs' Hs]. exists vs'.
+      unfold values_of. cbn [flat_map app]. now constructor.
+    + destruct H as (-> & Hv & H). destruct (IH _ _ Hcf H) as [vs' Hs].
+      unfold values_of. cbn [flat_map app]. fold (values_of its).
+      destruct v as [z | b | s].
+      * exists (VInt z :: vs'). constructor; [|assumption]. now apply (io_show_exact cf (VInt z)).
+      * destruct Hv as [Hf Hst]. destruct (show_float_item cf b _ Hcf Hf Hst) as [b' Hi].
+        exists (VFloat b' :: vs'). now constructor.
+      * exists (VStr s :: vs'). constructor; [|assumption]. now apply (io_show_exact cf (VStr s)).
+    + destruct H as (-> & -> & Hz & Hst & H). destruct (IH _ _ Hcf H) as [vs' Hs].
+      unfold values_of. cbn [flat_map app]. fold (values_of its).
+      exists (VInt z :: vs'). constructor; [|assumption]. now constructor.
+    + destruct H as (H1 & H2 & H3 & H4 & H5 & Hf & Hst & H). destruct (IH _ _ Hcf H) as [vs' Hs].
+      unfold values_of. cbn [flat_map app]. fold (values_of its).
+      destruct (num_float_item cf sp ssp b _ H1 H2 H3 H4 H5 Hf Hst) as [b' Hi].
+      exists (VFloat b' :: vs'). now constructor.
+Qed.
+
+Theorem wf_seq_roundtrip_string : forall cf its sits pre rest, config_ok_float cf -> wf_seq cf its sits rest ->
+  exists vs',
+    scan_str cf (fst (print_to_string cf pre (length pre) its) ++ rest) (length pre) sits []
+    = SOk vs' (snd (print_to_string cf pre (length pre) its))
+    /\ Forall2 value_close (values_of its) vs'.
+Proof.
+  intros cf its sits pre rest Hcf H. destruct (wf_seq_ok _ _ _ _ Hcf H) as [vs' Hs].
+  exists vs'. split; [|now apply (seq_ok_values _ _ _ _ _ _ Hs)].
+  apply (seq_roundtrip_string cf its pre rest sits _ vs' (okf_base _ Hcf) Hs).
+Qed.
+
+Theorem wf_seq_roundtrip_file : forall cf its sits old rest, config_ok_float cf -> wf_seq cf its sits rest ->
+  lits_plain its ->
+  exists vs',
+    scan_file cf (skipn (length old) (fst (print_to_file cf old (length old) its) ++ rest)) (length old) sits []
+    = SOk vs' (snd (print_to_file cf old (length old) its))
+    /\ Forall2 value_close (values_of its) vs'.
+Proof.
+  intros cf its sits old rest Hcf H Hl. destruct (wf_seq_ok _ _ _ _ Hcf H) as [vs' Hs].
+  exists vs'. split; [|now apply (seq_ok_values _ _ _ _ _ _ Hs)].
+  apply (seq_roundtrip_file cf its old rest sits _ vs' (okf_base _ Hcf) Hs Hl).
+Qed.
+
+(* D8: read through "%f" (binary32) the text of 123456789.123456 comes back as 123456792.0 *)
+Lemma float_look_single_refuted :
+  exists b b', decode_double b <> None /\
+    scan_num {| cf_show_esc := []; cf_look_esc := []; cf_look_cont := true; cf_float_look_long := false; cf_int_signext := true |}
+      (spec_f false) (print_num (spec_f false) (VFloat b)) = Some (VFloat b', 16%nat)
+    /\ b = 4728057454355442549 /\ b' = 4728057454548484096.
+Proof. exists 4728057454355442549, 4728057454548484096. split; [vm_compute; discriminate|]. split; [vm_compute; reflexivity|split; reflexivity]. Qed.
